@@ -197,6 +197,16 @@ func (m *AuditLogMiddleware) log(ctx context.Context, op auditlog.Operation, pha
 		}
 	}
 
+	if len(m.hashBuffer) >= auditlog.GroundingBlockSize {
+		// The grounding of the full block is still missing (its write failed or
+		// the process stopped right before it). It has to be written before
+		// the next block can be started.
+		m.emitGrounding()
+		if len(m.hashBuffer) >= auditlog.GroundingBlockSize {
+			return
+		}
+	}
+
 	entry.PreviousHash = m.lastHash
 	_ = entry.Sign(m.signer)
 
